@@ -16,6 +16,7 @@ import (
 
 	"github.com/graphql-go/graphql"
 	"github.com/graphql-go/graphql/gqlerrors"
+	"github.com/graphql-go/graphql/language/ast"
 	"github.com/graphql-go/graphql/language/printer"
 )
 
@@ -97,9 +98,19 @@ func c09Battery(b *abs.Built, text string, vars map[string]interface{}, outs []a
 	mkctx := func() context.Context {
 		return abs.WithRun(context.Background(), &abs.RunCtx{Built: b, Root: rootObject, RootTag: "r", Outs: outs})
 	}
-	doc, perr := parseDoc(text)
-	parse := perr == nil && doc != nil
-	report(c09Shape{Entry: "Parse", Parse: parse, Valid: true, Errs: perr != nil, JSON: true, Data: false}, "")
+	var doc *ast.Document
+	var perr error
+	parsePanic := ""
+	func() {
+		defer func() {
+			if r := recover(); r != nil {
+				parsePanic = fmt.Sprint(r)
+			}
+		}()
+		doc, perr = parseDoc(text)
+	}()
+	parse := parsePanic == "" && perr == nil && doc != nil
+	report(c09Shape{Entry: "Parse", Parse: parse, Valid: true, Errs: perr != nil, JSON: true, Data: false, Panic: parsePanic != ""}, parsePanic)
 	valid := false
 	if parse {
 		func() {
